@@ -29,15 +29,15 @@ LEGAL = {'px': (1,), 'py': (1,), 'pz': (1,), 'p': (4, 9), 'so': (1,), 's': (4,),
          'ell': (7,), 'wed': (12,), 'arb': (30,)}
 
 FAULTS = ['tr-m', 'trcl-m', 'fill-m', 'lat-noopt', 'lat-dim', 'surf-count', 'macro-count', 'mnemonic', 'facet',
-          'fill-short', 'fill-long', 'imp-len', 'mat-sign', 'lattice-arg', 'arb-vertex']
+          'fill-short', 'fill-long', 'imp-len', 'mat-sign', 'lattice-arg', 'arb-vertex', 'lat-odd']
 # fault classes the property does not name: only 'never a normally finished conversion' is demanded of them (a bare
 # exception is accepted)
-LENIENT = {'arb-vertex'}
+LENIENT = {'arb-vertex', 'lat-odd'}
 
 
 def plan(tier):
     q = tier == 'quick'
-    return [('fault', 420 if q else 7000, {})]
+    return [('fault', 1200 if q else 7000, {})]
 
 
 def search_plan(tier, disagreements):
@@ -50,7 +50,7 @@ def run_case(stream, seed, ctx, params):
     args = []
     detail = ''
     # ---- base deck suited to the fault
-    if fault in ('lat-noopt', 'lat-dim', 'fill-short', 'fill-long'):
+    if fault in ('lat-noopt', 'lat-dim', 'fill-short', 'fill-long', 'lat-odd'):
         d = U.build_universe_deck(rng, depth=2, macro_p=0.0, tr_p=0.0, fill_tr_p=0.0, trcl_p=0.0, lattice_p=0.7,
                                   lat_kind=rng.choice(['rect1', 'rect2', 'rect3', 'hex']))
         lat = [c for c in d.cells if c.lat]
@@ -144,6 +144,22 @@ def run_case(stream, seed, ctx, params):
         args += ['--lattice', '%d,%s' % (c.id, ','.join('%d:%d' % r for r in rs))]
         detail = '%d-for-%d%s' % (wrong, ndim, ' (%d ranges)' % len(rs) if len(rs) > 3 else '')
         text = D.render_deck(d, D.Layout(rng))
+    elif fault == 'lat-odd':
+        # a rectangular lattice cell bounded by an odd number of planes: the planes do not pair up
+        cands = [x for x in lat if x.lat == 1]
+        if not cands:
+            return None
+        c = rng.choice(cands)
+        n0 = len(D.expr_leaves(c.expr))
+        if rng.random() < 0.6 or n0 < 2:
+            nid = max(s_.id for s_ in d.surfs) + 1
+            d.surfs.append(D.Surf(nid, rng.choice(['px', 'py', 'pz']), [rng.choice([7.5, 9.0, -8.5])]))
+            c.expr = ('i', c.expr, ('s', -nid if d.surfs[-1].ps[0] > 0 else nid))
+            detail = '%d+1' % n0
+        else:
+            c.expr = c.expr[1]
+            detail = '%d-1' % n0
+        text = D.render_deck(d, D.Layout(rng))
     elif fault in ('surf-count', 'macro-count'):
         s = rng.choice(d.surfs)
         legal = LEGAL.get(s.mn)
@@ -186,6 +202,8 @@ def run_case(stream, seed, ctx, params):
         else:
             c.fill['us'] = c.fill['us'] + [c.fill['us'][0]] * delta
         detail = '%+d' % (delta if fault == 'fill-long' else -delta)
+        if fault == 'fill-long' and delta == 1 and c.fill['us'][0] in d.trs:
+            detail = '+1=tr'      # the surplus entry is the number of a TR card of the deck (finding F17c)
         text = D.render_deck(d, D.Layout(rng))
     elif fault == 'imp-len':
         d.imp_cards = {'n': ['1'] * len(d.cells), 'p': ['1'] * (len(d.cells) + rng.choice([1, -1, 2]))}
